@@ -66,6 +66,8 @@ type FnCtx struct {
 	errGlobals []string
 	unrollTop  bool
 	usesPtrTag bool
+	next0      *Term
+	hvBound    *Term // allocation bound valid for values appearing through the havoc in progress
 }
 
 // ghostInit returns the initial (function entry) value of ghost variable name.
@@ -103,7 +105,44 @@ func (fc *FnCtx) heap(st *State, name string, sort Sort) *Term {
 	fc.heapSorts[name] = sort
 	t := fc.sc.Fresh("H0_"+name, sort)
 	fc.initHeaps[name] = t
+	fc.wfHeapFact(t, fc.next0)
 	return t
+}
+
+// wfHeapFact: every reference stored anywhere in heap h denotes an object allocated before `bound`
+// (heap well-formedness, stated once per unconstrained heap / row so that it is available under quantifiers).
+func (fc *FnCtx) wfHeapFact(h *Term, bound *Term) {
+	if bound == nil {
+		return
+	}
+	k1, inner := splitArr(h.Sort)
+	var k2, leaf Sort
+	two := strings.HasPrefix(string(inner), "(Array ")
+	if two {
+		k2, leaf = splitArr(inner)
+	} else {
+		leaf = inner
+	}
+	var obj string
+	var read string
+	if two {
+		read = fmt.Sprintf("(select (select %s a!q) b!q)", h.S)
+	} else {
+		read = fmt.Sprintf("(select %s a!q)", h.S)
+	}
+	switch leaf {
+	case SPtr:
+		obj = "(pobj " + read + ")"
+	case SSlice:
+		obj = "(sarr " + read + ")"
+	default:
+		return
+	}
+	vars := fmt.Sprintf("(a!q %s)", k1)
+	if two {
+		vars += fmt.Sprintf(" (b!q %s)", k2)
+	}
+	fc.sc.Assert(mk(SBool, fmt.Sprintf("(forall (%s) (! (and (<= 0 %s) (< %s %s)) :pattern (%s)))", vars, obj, obj, bound.S, read)))
 }
 
 func (fc *FnCtx) setHeap(st *State, name string, t *Term) {
@@ -258,7 +297,12 @@ func (fc *FnCtx) collectTypeFacts(st *State, v Val, t types.Type, fs *[]*Term) {
 				*fs = append(*fs, Le(BigLit(lo), v.T), Le(v.T, BigLit(hi)))
 			} else {
 				switch t.Underlying().(type) {
-				case *types.Map, *types.Chan, *types.Signature:
+				case *types.Map:
+					// a map object has exactly one Go type: maps of different types are different objects
+					fc.sc.DeclFun("maptype", []Sort{SInt}, SInt)
+					tag := IntLit(int64(fc.eng.ti.TagOf(t.Underlying())))
+					*fs = append(*fs, Le(IntLit(0), v.T), Lt(v.T, st.next), Implies(Ne(v.T, IntLit(0)), Eq(app(SInt, "maptype", v.T), tag)))
+				case *types.Chan, *types.Signature:
 					*fs = append(*fs, Le(IntLit(0), v.T), Lt(v.T, st.next))
 				}
 			}
